@@ -18,6 +18,7 @@ type c07BodyT struct {
 	ret   func(m string) string // the block in the return placements (nil: not available there)
 	out   func(m string) string // what rendering the block contributes
 	marks bool                  // the block calls mark(m) / markS(m) / markV(m) (yielding nil / "" / m) exactly once when executed
+	fails bool                  // executing the block ends in an error (after its mark): the render fails there
 	what  string
 }
 
@@ -39,9 +40,20 @@ var c07Bodies = map[string]c07BodyT{
 	"tm": {text: func(m string) string { return `{ %>` + m + `<% mark("` + m + `") %><% }` }, out: func(m string) string { return m }, marks: true, what: "marker text, then code"},
 	"re": {ret: func(m string) string { return `{ return "" }` }, out: c07Nothing, what: `return ""`},
 	"rm": {ret: func(m string) string { return `{ return markS("` + m + `") }` }, out: c07Nothing, marks: true, what: `return of a call that yields ""`},
+	// blocks that fail once they run (after recording that they ran): the chain has selected its block all the
+	// same - no later condition is evaluated and no other block runs
+	"xu": {text: func(m string) string { return `{ %><%= markS("` + m + `") %><%= c07unset %><% }` },
+		ret: func(m string) string { return `{ return markS("` + m + `") + c07unset }` },
+		out: c07Nothing, marks: true, fails: true, what: "fails: reads an unset name"},
+	"xm": {text: func(m string) string { return `{ %><%= markS("` + m + `") %><%= c07unset.Name %><% }` },
+		ret: func(m string) string { return `{ return markS("` + m + `") + c07unset.Name }` },
+		out: c07Nothing, marks: true, fails: true, what: "fails: reads a member of an unset name"},
+	"xe": {text: func(m string) string { return `{ %><%= fail("` + m + `") %><% }` },
+		ret: func(m string) string { return `{ return fail("` + m + `") }` },
+		out: c07Nothing, marks: true, fails: true, what: "fails: a helper that returns an error"},
 }
 
-var c07BodyNames = []string{"t", "e", "eh", "m", "l", "a", "pn", "ps", "n", "c", "w", "tm", "re", "rm"}
+var c07BodyNames = []string{"t", "e", "eh", "m", "l", "a", "pn", "ps", "n", "c", "w", "tm", "re", "rm", "xu", "xm", "xe"}
 
 // the non-default body kinds a placement can take
 func c07BodyKindsFor(w c07Wrap) []string {
@@ -129,6 +141,7 @@ func c07BodiesData(data map[string]interface{}, marks map[string]int) {
 	data["markS"] = func(m string) string { marks[m]++; return "" }
 	data["markV"] = func(m string) string { marks[m]++; return m }
 	data["sel"] = "none"
+	data["fail"] = func(m string) (string, error) { marks[m]++; return "", fmt.Errorf("block %s failed", m) }
 }
 
 func c07MarksText(c c07Chain, m map[string]int) string {
